@@ -381,6 +381,7 @@ func (c *ctx) overlap(mode string, warm int, ps []Pat, ax string, consA []int, a
 		if !st.fired {
 			// no handler of A had that ordinal: B simply comes afterwards
 			st.fired = true
+			st.park = nil
 			_ = send(toksB, stB)
 		} else if mode == "conc2" {
 			close(st.cont)
